@@ -1,5 +1,5 @@
 from harness.corecheck import make
-MODULE = make("C01", ["CircusProofs/Props/C01.lean", "CircusProofs/Props/C01Conv.lean"],
+MODULE = make("C01", ["CircusProofs/Props/C01.lean", "CircusProofs/Props/C01Conv.lean", "CircusProofs/Props/C01Conv2.lean"],
               ["CircusProofs/Core/Pres.lean", "CircusProofs/Core/Generic.lean", "CircusProofs/Core/SlotFree.lean",
                "CircusProofs/Core/WsAll.lean", "CircusProofs/Core/Calm.lean", "CircusProofs/Core/Init.lean",
-               "CircusProofs/Core/Conv.lean"])
+               "CircusProofs/Core/Conv.lean", "CircusProofs/Core/ConvReap.lean", "CircusProofs/Core/ConvSurplus.lean", "CircusProofs/Core/ConvMulti.lean", "CircusProofs/Core/ConvMultiReap.lean", "CircusProofs/Core/ConvSurplusStub.lean"])
